@@ -27,6 +27,18 @@ class Call:
         self.result = None
 
 
+def bulk_arg(xs, mode):
+    """the bulk removers take any iterable: list, set, tuple or a one-shot generator"""
+    m = mode % 4
+    if m == 0:
+        return list(xs)
+    if m == 1:
+        return set(xs)
+    if m == 2:
+        return (x for x in list(xs))
+    return tuple(xs)
+
+
 class Universe:
     def __init__(self):
         self.pool = {k: [] for k in KINDS}
@@ -260,7 +272,7 @@ class Interpreter:
                             container=("libraries", N), elements=[L])
             if name == "nl.remove_libraries_from":
                 Ls = several(N.libraries, "library")
-                arg = set(Ls) if mode % 2 else list(Ls)
+                arg = bulk_arg(Ls, mode)
                 return Call(name, N, [Ls], lambda: N.remove_libraries_from(arg), kind="remove",
                             container=("libraries", N), elements=Ls)
             if name == "nl.libraries=":
@@ -305,7 +317,7 @@ class Interpreter:
                             container=("definitions", L), elements=[D])
             if name == "lib.remove_definitions_from":
                 Ds = several(L.definitions, "definition")
-                arg = set(Ds) if mode % 2 else list(Ds)
+                arg = bulk_arg(Ds, mode)
                 return Call(name, L, [Ds], lambda: L.remove_definitions_from(arg), kind="remove",
                             container=("definitions", L), elements=Ds)
             if name == "lib.definitions=":
@@ -353,7 +365,7 @@ class Interpreter:
                                 elements=[x])
                 if name == "def.remove_%s_from" % plural:
                     xs = several(cur_list, kind)
-                    arg = set(xs) if mode % 2 else list(xs)
+                    arg = bulk_arg(xs, mode)
                     meth = getattr(D, "remove_%s_from" % plural)
                     return Call(name, D, [xs], lambda: meth(arg), kind="remove", container=(attr, D),
                                 elements=xs)
@@ -388,7 +400,7 @@ class Interpreter:
                             container=("pins", P), elements=[x])
             if name == "port.remove_pins_from":
                 xs = several(P.pins, "pin")
-                arg = set(xs) if mode % 2 else list(xs)
+                arg = bulk_arg(xs, mode)
                 return Call(name, P, [xs], lambda: P.remove_pins_from(arg), kind="remove",
                             container=("pins", P), elements=xs)
             if name == "port.pins=":
@@ -428,7 +440,7 @@ class Interpreter:
                             container=("wires", C), elements=[x])
             if name == "cable.remove_wires_from":
                 xs = several(C.wires, "wire")
-                arg = set(xs) if mode % 2 else list(xs)
+                arg = bulk_arg(xs, mode)
                 return Call(name, C, [xs], lambda: C.remove_wires_from(arg), kind="remove",
                             container=("wires", C), elements=xs)
             if name == "cable.wires=":
@@ -518,7 +530,7 @@ class Interpreter:
                         x = [U.pick("pin", a + v), _pick(outers, a + v), U.pick("proxy", a + v)][v % 3]
                         if x is not None:
                             ps.append(x)
-                arg = set(ps) if mode % 2 else list(ps)
+                arg = bulk_arg(ps, mode)
                 return Call(name, W, [ps], lambda: W.disconnect_pins_from(arg), kind="disconnect",
                             pins=ps)
             if name == "wire.pins=":
@@ -610,6 +622,12 @@ class Interpreter:
             return Call(name, E, [], mkclone, kind="clone")
         if name.startswith("el."):
             els = U.first_class()
+            if name in ("el.set", "el.del", "el.pop") and key in (".NAME", "EDIF.identifier") and own:
+                # prefer elements that already carry the key (re-identifying / un-naming an indexed
+                # element is where index and data can part ways)
+                have = [x for x in els if key in x.data]
+                if have:
+                    els = have
             E = _pick(els, t)
             if E is None:
                 return None
